@@ -73,7 +73,8 @@ H2_CONSTS = ["DEFAULT_MAX_PING_LIFETIME", "DEFAULT_MAX_SETTINGS_LIFETIME"]
 
 
 TRANSLATE_FALLBACK = (
-    "the facts reported as unreadable are all observed by what the check runs anyway: the frame-type byte maps and the "
+    "only three facts are ever reported as unreadable, each observed by what the check runs anyway (tested with breaking "
+    "variants in unrecognisable spellings, corpus/C15/unreadable_variants.txt): the "
     "stream-id legality table by the decode / encode cases of the in-process driver (every frame type with stream id 0, 1 and "
     "2^31-1, every type byte 0..0x10 and unknown ones, harness/src/bin/c15.rs `dec` / `enc`); the order, thresholds and "
     "strictness of check_flood by the `flood` cases (each counter set to threshold and threshold+1 through the hook, alone and "
@@ -115,11 +116,17 @@ def _read_sid_table(P, fails):
                 continue
             rules = {}
             ok = True
+            typed = sum(1 for pat, _ in arms if re.search(r"FrameType::\w+", pat))
             for pat, body in arms:
                 types = re.findall(r"FrameType::(\w+)", pat)
                 rule = _sid_rule(rsfacts.tokens(body))
                 if not types or rule is None or any(t not in FT_CODE for t in types):
                     ok = False
+                    if typed >= 3 and types and re.search(r"\bstream_id\b|\btrue\b|\bfalse\b|[!=]=\s*0", body):
+                        # this IS the table, and an arm does not read as `!= 0` / `== 0` / true: found but different
+                        fails.append("parser.rs: stream-id legality of %s is `%s`; the model knows `stream_id != 0`, `stream_id == 0` and `true`"
+                                     % ("|".join(types), " ".join(rsfacts.tokens(body))[:80]))
+                        return None
                     break
                 for t in types:
                     rules[FT_CODE[t]] = rule
@@ -176,9 +183,6 @@ def translate():
     for n in PARSER_CONSTS:
         if n in P.consts:
             consts[n] = int(P.consts[n])
-        elif n in snap.get("consts", {}):
-            consts[n] = snap["consts"][n]
-            fails.append("unreadable: parser.rs constant %s is not defined under that name any more; the model keeps %d" % (n, consts[n]))
         else:
             fails.append("parser.rs: constant %s not found" % n)
 
@@ -188,7 +192,13 @@ def translate():
         order, strict = _read_flood_order(H, fails)
     except rsfacts.Unreadable:
         pass
-    if order is None or strict is None:
+    if order is not None and strict is None:
+        fails.append("h2.rs: check_flood chains its ten tests but the comparison of its helper is not `count > threshold` (nor `threshold < count`): the model is strict")
+        order = None
+        for n in H2_CONSTS:
+            if n in H.consts:
+                consts[n] = int(H.consts[n])
+    elif order is None:
         fails.append("unreadable: h2.rs check_flood is no longer a chain of calls of one helper (reason, metric, self.<count>, <threshold>) "
                      "with `if count > threshold`; the model tests the ten counters in the order %s with a strict comparison" % FLOOD_ORDER)
         for n in H2_CONSTS:
@@ -231,12 +241,7 @@ def translate():
         if im and im.group("n").isdigit() and im.group("unit") in ("from_secs", "from_millis"):
             window_ms = int(im.group("n")) * (1000 if im.group("unit") == "from_secs" else 1)
     if window_ms is None:
-        if "FLOOD_WINDOW_MS" in snap.get("consts", {}):
-            window_ms = snap["consts"]["FLOOD_WINDOW_MS"]
-            fails.append("unreadable: h2.rs maybe_reset_window no longer compares window_start.elapsed() with a Duration constant; the model keeps %d ms "
-                         "(observed: the `flood` cases age the window through the hook around that value)" % window_ms)
-        else:
-            fails.append("h2.rs: the flood window duration cannot be read")
+        fails.append("h2.rs: the flood window duration cannot be read (maybe_reset_window: `self.<start>.elapsed() >= <Duration constant>`)")
     if window_ms is not None:
         consts["FLOOD_WINDOW_MS"] = window_ms
     if "MAX_LOOP_ITERATIONS" in M.consts:
@@ -256,7 +261,7 @@ def translate():
         t2f = []
     if len(t2f) < 11:
         t2f = [tuple(x) for x in snap.get("t2f", [])]
-        fails.append("unreadable: parser.rs convert_frame_type is no longer a match from type byte to FrameType; the model keeps the map of RFC 9113 6 / RFC 9218 7.1")
+        fails.append("parser.rs: convert_frame_type is no longer a match from type byte to FrameType covering the 11 known types")
     # FrameType -> byte
     f2t = []
     try:
@@ -269,14 +274,14 @@ def translate():
         f2t = []
     if len(f2t) < 11:
         f2t = [tuple(x) for x in snap.get("f2t", [])]
-        fails.append("unreadable: serializer.rs serialize_frame_type is no longer a match from FrameType to type byte; the model keeps the inverse of the decoding map")
+        fails.append("serializer.rs: serialize_frame_type is no longer a match from FrameType to type byte covering the 11 known types")
     # stream-id validity table
     rules = None
     try:
         rules = _read_sid_table(P, fails)
     except (rsfacts.Unreadable, KeyError) as ex:
         rules = None
-    if rules is None and not any("does not cover every FrameType" in f for f in fails):
+    if rules is None and not any("does not cover every FrameType" in f or "stream-id legality of" in f for f in fails):
         rules = {int(k): v for k, v in snap.get("sid_rules", {}).items()}
         fails.append("unreadable: parser.rs frame_header (and the helpers it calls) holds no `match` from FrameType to `stream_id != 0` / `== 0` / true; "
                      "the model keeps the table of RFC 9113 6 (stream-scoped / connection-scoped / either)")
